@@ -1138,10 +1138,16 @@ impl SolarDay {
   /// ```
   pub fn get_lunar_day(&self) -> LunarDay {
     let mut m: LunarMonth = LunarMonth::from_ym(self.get_year(), self.get_month() as isize);
-    let mut days: isize = self.subtract(m.get_first_julian_day().get_solar_day());
+    // 与农历月初一相差的天数，按每个月实际的初一计算（历史改历处相邻月并不首尾相接，初一也可能早于公历月初不止一个月）
+    let jd: f64 = self.get_julian_day().get_day() + 0.5;
+    let mut days: isize = (jd - m.get_first_julian_day().get_day()).floor() as isize;
     while days < 0 {
       m = m.next(-1);
-      days += m.get_day_count() as isize;
+      days = (jd - m.get_first_julian_day().get_day()).floor() as isize;
+    }
+    while days >= m.get_day_count() as isize {
+      m = m.next(1);
+      days = (jd - m.get_first_julian_day().get_day()).floor() as isize;
     }
     LunarDay::from_ymd(m.get_year(), m.get_month_with_leap(), (days + 1) as usize)
   }
